@@ -174,7 +174,8 @@ NOT_APPLICABLE = {k: _WIP for k in ["C01", "C02", "C03", "C06", "C07", "C08", "C
 
 PROPS = {
     "C04": {
-        "level": "model_checking",
+        "level": "other",
+        "verus": ["V4a_slice_offset"],
         "technique": "bounded contract checking (Kani/CBMC) of the real element-wise operators per concrete shape pair, symbolic values",
         "level_text": "Bounded, not a proof: for every shape pair of the table (all alignment classes of sliced_op's broadcast walk; "
                       "thorough: all ordered pairs of shapes of rank <= 3 over sizes {1,2}) CBMC decides the C04 postcondition for all "
@@ -348,4 +349,222 @@ PROPS.update({
             "level_text": _GRAPH_TEXT, "level_note": _GRAPH_NOTE, "explanation": _GRAPH_TEXT},
 })
 for _k in ("C01", "C10", "C11", "C17"):
+    NOT_APPLICABLE.pop(_k, None)
+
+
+# ------------------------------------------------------------------------------------------ C02 / C07 / C06 / C03
+U = {"neg": 0, "scale": 1, "powf": 2, "ln": 3, "exp": 4, "recip": 5, "relu": 6, "sigmoid": 7}
+
+
+def fl(x):
+    return repr(float(x))
+
+
+def unary_inst(op, p, dims, mode):
+    name = "%s_%s%s__%s" % ("c07" if mode == 0 else "c02", op, ("_p" + str(p).replace("-", "m").replace(".", "d")) if op in ("scale", "powf") else "", dn(dims))
+    src = "unary_instance!(%s, %d, %d, %s, [%s], %d);" % (name, prod(dims) + 10, U[op], fl(p), lit(dims), mode)
+    return Instance(name, src, function="Array::%s" % op,
+                    contract=("C07: dims kept, out[i] = f(x[i]) bitwise" if mode == 0 else
+                              "C02: after op(x).backward(seed): grad(x)[i] = seed[i] * f'(x[i]), dims of x"),
+                    bounds="dims %s concrete, parameter %s, values/seed symbolic (exact domain); transcendentals = deterministic models (A4)" % (list(dims), p),
+                    descr="%s %s" % (op, "forward" if mode == 0 else "derivative"))
+
+
+def sum_inst(dims, k, mode):
+    name = "%s_sum%d__%s" % ("c07" if mode == 0 else "c02", k, dn(dims))
+    src = "sum_instance!(%s, %d, [%s], %d, %d);" % (name, prod(dims) + 10, lit(dims), k, mode)
+    return Instance(name, src, function="Array::sum / sum_all",
+                    contract="C07: sum(k) collapses the last k dims into one unit dim holding their sums; C02: every summed element receives its block's seed",
+                    bounds="dims %s, k=%d concrete; values symbolic integers" % (list(dims), k), descr="sum")
+
+
+def reshape_inst(dims, target, mode):
+    name = "%s_reshape__%s__%s" % ("c07" if mode == 0 else "c02", dn(dims), dn(target))
+    src = "reshape_instance!(%s, %d, [%s], [%s], %d);" % (name, prod(dims) + 10, lit(dims), lit(target), mode)
+    return Instance(name, src, expect_panic=prod(dims) != prod(target), function="Array::reshape",
+                    contract="C07: row-major order kept under new dims, storage shared, other element counts refused; C02: gradient = seed reshaped",
+                    bounds="dims %s -> %s concrete" % (list(dims), list(target)), descr="reshape")
+
+
+def softmax_inst(rows, mode):
+    name = "%s_softmax__%dx2" % ("c07" if mode == 0 else "c02", rows)
+    src = "softmax_instance!(%s, %d, %d, %d);" % (name, rows * 2 + 12, rows, mode)
+    return Instance(name, src, function="Array::softmax",
+                    contract="C07: exp(x_i)/sum_j exp(x_j) over the last dim, rows non-negative and summing to one; C02: g_i = y_i (s_i - sum_j s_j y_j)",
+                    bounds="[%d,2] rows with first element fixed to -4 (exact quotients under the exp model); second element and seed symbolic" % rows,
+                    descr="softmax", timeout=900)
+
+
+def ew_grad_inst(op, a, b, ta=True, tb=True):
+    name = "c02_%s_grad__%s__%s__t%d%d" % (op, dn(a), dn(b), ta, tb)
+    n = max(prod(a), prod(b), prod(bcast(a, b)))
+    src = "ew_grad_instance!(%s, %d, %d, [%s], [%s], %s, %s);" % (name, n + 10, EW_OPS[op], lit(a), lit(b), str(ta).lower(), str(tb).lower())
+    return Instance(name, src, function="<&Array as %s<&Array>> + Array::backward + flatten_to" % op,
+                    contract="C02/C03: grad(a)[p] = sum_{i projecting onto p} seed[i]*df/dx, dims of a; same for b; untracked operand gets none",
+                    bounds="shapes %s / %s concrete; values, seed symbolic (divisors in +-{1,2,4})" % (a, b), descr="binary derivative", timeout=900)
+
+
+def mm_grad_inst(a, at, b, bt, c=(), ta=True, tb=True, tc=True):
+    name = "c02_mm_grad__%s%s__%s%s__c%s__t%d%d%d" % (dn(a), "t" if at else "", dn(b), "t" if bt else "", dn(c), ta, tb, tc)
+    n = max(prod(a), prod(b), prod(mm_expect(a, at, b, bt)))
+    src = "mm_grad_instance!(%s, %d, [%s], %s, [%s], %s, [%s], %s, %s, %s);" % (
+        name, n + 10, lit(a), str(at).lower(), lit(b), str(bt).lower(), lit(c), str(ta).lower(), str(tb).lower(), str(tc).lower())
+    return Instance(name, src, function="Array::matmul + Array::backward",
+                    contract="C02: gradients of A, B and the additive term = transpose-Jacobian x seed (brute-force accumulation); C09 tracked iff any operand",
+                    bounds="shapes %s%s x %s%s c=%s concrete; values, seed symbolic" % (a, "^T" if at else "", b, "^T" if bt else "", list(c)),
+                    descr="matmul derivative", timeout=1200)
+
+
+def conv_inst(batch, d, r, c, cnt, fr, fc, sr, sc, mode):
+    name = "%s_conv__b%s_d%d_%dx%d__f%d_%dx%d__s%d_%d" % ("c06" if mode == 0 else "c02", dn(batch), d, r, c, cnt, fr, fc, sr, sc)
+    n = prod(batch) * max(d * r * c, cnt * ((r - fr) // sr + 1) * ((c - fc) // sc + 1)) + cnt * d * fr * fc
+    src = "conv_instance!(%s, %d, [%s], %d, %d, %d, %d, %d, %d, %d, %d, %d);" % (name, n + 12, lit(batch), d, r, c, cnt, fr, fc, sr, sc, mode)
+    return Instance(name, src, function="Array::conv (unroll_blocks, reshape, matmul, expand_conv)" + (" + backward" if mode else ""),
+                    contract="C06: out[b,f,y,x] = sum_{k,m,n} image[b,k,y*sr+m,x*sc+n]*filter[f,k,m,n]; C02: image/filter gradients = J^T seed",
+                    bounds="batch %s, depth %d, image %dx%d, %d filters %dx%d, stride (%d,%d) concrete; values symbolic" % (list(batch), d, r, c, cnt, fr, fc, sr, sc),
+                    descr="conv", timeout=1500, mem_gb=16)
+
+
+def c07_instances(tier):
+    I = []
+    quick_unary = [("neg", 0, [2, 2]), ("scale", 3, [3]), ("powf", 3, [2]), ("powf", 0.5, [2]), ("ln", 0, [2]), ("exp", 0, [1, 2]),
+                   ("recip", 0, [2]), ("relu", 0, [2, 2]), ("sigmoid", 0, [2])]
+    for op, p, d in quick_unary:
+        I.append(unary_inst(op, p, d, 0))
+    I += [sum_inst([2, 3], 1, 0), sum_inst([2, 2, 2], 2, 0), sum_inst([2, 3], 0, 0), sum_inst([2, 2], 2, 0),
+          reshape_inst([2, 3], [3, 2], 0), reshape_inst([2, 3], [4], 0), softmax_inst(1, 0)]
+    if tier == "thorough":
+        for op, p, d in [("neg", 0, [1, 2, 1, 2]), ("scale", -2, [2, 1, 2]), ("powf", 2, [2, 2]), ("powf", -1, [3]), ("powf", 0, [2]),
+                         ("powf", 1, [2]), ("ln", 0, [2, 1]), ("exp", 0, [3]), ("recip", 0, [1, 3]), ("relu", 0, [3]), ("sigmoid", 0, [2, 2])]:
+            I.append(unary_inst(op, p, d, 0))
+        for dims in ([3], [2, 3], [2, 2, 2], [2, 1, 3], [1, 2, 2, 2]):
+            for k in range(0, len(dims) + 1):
+                I.append(sum_inst(dims, k, 0))
+        I += [sum_inst([2, 2], 3, 0), reshape_inst([2, 2, 2], [4, 2], 0), reshape_inst([4], [2, 1, 2], 0), reshape_inst([2, 2], [2, 3], 0),
+              reshape_inst([1], [1, 1, 1], 0), softmax_inst(2, 0)]
+        seen = set()
+        I = [i for i in I if not (i.name in seen or seen.add(i.name))]
+    return I
+
+
+def c02_instances(tier):
+    I = [unary_inst("powf", 3, [2], 1), unary_inst("recip", 0, [2], 1), unary_inst("sigmoid", 0, [2], 1), unary_inst("ln", 0, [2], 1),
+         sum_inst([2, 2, 2], 2, 1), reshape_inst([2, 2], [4], 1),
+         ew_grad_inst("mul", [2, 2], [2]), ew_grad_inst("div", [2], [2, 2]),
+         mm_grad_inst([2, 2], False, [2, 1], False, [1]), mm_grad_inst([2, 1], True, [2, 2], True),
+         conv_inst([], 1, 2, 3, 1, 1, 2, 1, 1, 1)]
+    if tier == "thorough":
+        for op, p, d in [("neg", 0, [2]), ("scale", -2, [2]), ("powf", 2, [2]), ("powf", -1, [2]), ("powf", 0.5, [2]), ("powf", 0, [2]),
+                         ("powf", 1, [2]), ("exp", 0, [2]), ("relu", 0, [3]), ("powf", 3, [2, 2]), ("ln", 0, [1, 2]), ("recip", 0, [2, 1])]:
+            I.append(unary_inst(op, p, d, 1))
+        for dims in ([3], [2, 3], [2, 2, 2], [2, 1, 2]):
+            for k in range(0, len(dims) + 1):
+                I.append(sum_inst(dims, k, 1))
+        I += [sum_inst([2, 2, 2, 2], 2, 1), sum_inst([2, 2, 2, 2], 3, 1), reshape_inst([2, 3], [3, 2], 1), reshape_inst([4], [2, 1, 2], 1),
+              softmax_inst(1, 1), softmax_inst(2, 1)]
+        for op in ("add", "sub", "mul", "div", "axpy"):
+            for a, b in [([2, 2], [2]), ([2], [2, 2]), ([2, 1], [1, 2]), ([2, 2, 2], [2, 2]), ([1, 2], [2, 1, 2])]:
+                I.append(ew_grad_inst(op, a, b))
+            I.append(ew_grad_inst(op, [2, 2], [2], ta=False))
+            I.append(ew_grad_inst(op, [2, 2], [1], tb=False))
+        for at in (False, True):
+            for bt in (False, True):
+                a = [1, 2] if at else [2, 1]
+                b = [2, 1] if bt else [1, 2]
+                I.append(mm_grad_inst(a, at, b, bt))
+        I += [mm_grad_inst([2, 2], False, [2, 2], False, [2]), mm_grad_inst([2, 2], False, [2, 2], True, [2, 2]),
+              mm_grad_inst([2, 1, 2], False, [2, 1], False, [1, 1]), mm_grad_inst([2], False, [2, 2], False),
+              mm_grad_inst([2, 2], False, [2], True), mm_grad_inst([2], False, [2], False),
+              mm_grad_inst([2, 2], False, [2, 1], False, [1], ta=False, tb=False, tc=True),
+              mm_grad_inst([2, 1, 2], False, [1, 2, 1], False), mm_grad_inst([1, 1, 2], False, [2, 2, 1], False)]
+        I += [conv_inst([], 1, 3, 3, 1, 2, 2, 1, 1, 1), conv_inst([2], 1, 2, 2, 1, 1, 1, 1, 1, 1), conv_inst([], 2, 2, 3, 1, 2, 2, 1, 1, 1),
+              conv_inst([], 1, 3, 4, 2, 2, 2, 1, 2, 1), conv_inst([2], 1, 3, 3, 1, 2, 2, 1, 1, 1), conv_inst([], 1, 4, 3, 1, 2, 1, 2, 1, 1)]
+        seen = set()
+        I = [i for i in I if not (i.name in seen or seen.add(i.name))]
+    return I
+
+
+def c06_instances(tier):
+    I = [conv_inst([], 1, 3, 3, 1, 2, 2, 1, 1, 0), conv_inst([2], 1, 2, 2, 2, 1, 1, 1, 1, 0), conv_inst([], 2, 2, 3, 1, 2, 2, 1, 1, 0),
+         conv_inst([], 1, 3, 4, 1, 2, 2, 2, 1, 0), conv_inst([1], 1, 2, 3, 1, 1, 2, 1, 1, 0)]
+    if tier == "thorough":
+        I += [conv_inst([2], 1, 3, 3, 1, 2, 2, 1, 1, 0), conv_inst([], 1, 4, 4, 1, 2, 2, 2, 2, 0), conv_inst([], 1, 4, 3, 2, 3, 2, 1, 1, 0),
+              conv_inst([], 1, 3, 4, 1, 2, 2, 1, 2, 0), conv_inst([2, 1], 1, 2, 2, 1, 2, 2, 1, 1, 0), conv_inst([], 2, 3, 3, 2, 2, 2, 1, 1, 0),
+              conv_inst([], 1, 4, 3, 1, 2, 1, 3, 1, 0), conv_inst([], 1, 3, 5, 1, 1, 2, 1, 2, 0), conv_inst([3], 1, 2, 2, 1, 2, 1, 1, 1, 0),
+              conv_inst([], 1, 5, 2, 1, 2, 2, 2, 1, 0)]
+    return I
+
+
+def flatten_inst(s, t):
+    name = "c03_flatten__%s__%s" % (dn(s), dn(t))
+    src = "flatten_instance!(%s, %d, [%s], [%s]);" % (name, prod(s) + 10, lit(s), lit(t))
+    return Instance(name, src, function="Array::flatten_to (flatten_slice)",
+                    contract="C03: dims = target; out[j] = sum_{i projecting onto j} in[i]", bounds="%s -> %s concrete; values symbolic" % (s, t),
+                    descr="flatten_to")
+
+
+def multiuse_inst(a, b, uses, passes=1):
+    name = "c03_multiuse__%s__%s__u%d_p%d" % (dn(a), dn(b), uses, passes)
+    src = "multiuse_instance!(%s, %d, [%s], [%s], %d, %d);" % (name, max(prod(a), prod(b), prod(bcast(a, b))) + 10, lit(a), lit(b), uses, passes)
+    return Instance(name, src, function="Array::backward (first/later contribution) + flatten_to",
+                    contract="C03: a broadcast operand used `uses` times gets a gradient of its own dims = sum over positions and uses",
+                    bounds="a %s, b %s concrete, %d uses, %d passes; values/seed symbolic" % (a, b, uses, passes), descr="multi-use broadcast", timeout=1200)
+
+
+def c03_instances(tier):
+    I = [flatten_inst([2, 3], [3]), flatten_inst([2, 3], [1, 3]), flatten_inst([2, 2, 3], [2, 3]), flatten_inst([2, 3], [2, 1]),
+         multiuse_inst([2, 3], [3], 2), multiuse_inst([2, 2], [2, 1], 3), ew_grad_inst("mul", [2, 1, 2], [1, 2])]
+    if tier == "thorough":
+        I += [flatten_inst([2, 2, 3], [3]), flatten_inst([2, 2, 3], [2, 1, 3]), flatten_inst([2, 2, 3], [1, 2, 1]), flatten_inst([2, 2], [1]),
+              flatten_inst([3], [1, 3]), flatten_inst([2, 2, 2, 2], [2, 1, 2]), flatten_inst([2, 3], [1, 1]), flatten_inst([2, 1, 2], [2]),
+              multiuse_inst([2, 3], [3], 3), multiuse_inst([2, 3], [1, 3], 2), multiuse_inst([2, 2, 2], [2, 2], 2), multiuse_inst([2, 3], [1], 2),
+              multiuse_inst([2, 2], [2], 2, passes=2), multiuse_inst([3], [2, 3], 2), multiuse_inst([2, 1], [1, 2], 2)]
+        for a, b in [([2, 2], [2]), ([2], [2, 2]), ([2, 1], [1, 2]), ([2, 2, 2], [2, 2]), ([1, 2], [2, 1, 2]), ([2, 2], [1])]:
+            I.append(ew_grad_inst("add", a, b))
+    return I
+
+
+_OP_NOTE = ("shapes/parameters concrete per instance, values and seeds symbolic integers in [-4,4] (divisors +-{1,2,4}); exp/ln/powf are "
+            "the deterministic models of kani/math_models.c (A4); Rc::drop_slow stubbed (A3); A1 for the Verus units")
+PROPS.update({
+    "C02": {"level": "other", "verus": ["V3_roll_blocks_op", "V4b_flatten_slice", "V1_matmul_slice"],
+            "kani_groups": ["h_elementwise.rs", "h_matmul.rs", "h_ops.rs", "h_conv.rs"], "instances": c02_instances,
+            "technique": "Verus proofs of the gradient kernels (scatter-add of the unroll derivative, reduce-to-shape, matmul kernel) + bounded "
+                         "Kani contract instances: op(x).backward(seed) against the transpose-Jacobian written out",
+            "level_text": "Unbounded (Verus, all sizes): the accumulating roll kernel computes out[p] = old + sum of the inputs mapped to p and "
+                          "its index map is the inverse of the im2col map; flatten_slice adds every value at its projected index; "
+                          "matmul_slice (used by the matmul derivative). Bounded (Kani): for each operation and parameter class the real "
+                          "operation is applied to tracked operands, the real backward pass is run with a symbolic non-uniform seed and every "
+                          "operand gradient is compared with J^T seed computed by explicit loops.",
+            "level_note": _OP_NOTE,
+            "explanation": "Per-operation derivative contracts. obligations/discharged count the Verus obligations only; bounded_* the Kani instances.",
+            "not_decided": ["that the derivative identities used as oracle (calculus table) are the mathematical derivatives is trusted (A4)"]},
+    "C03": {"level": "other", "verus": ["V4b_flatten_slice"],
+            "kani_groups": ["h_elementwise.rs"], "instances": c03_instances,
+            "technique": "Verus proof of flatten_slice (reduce-to-shape for every rank and size) + bounded Kani instances of flatten_to and of "
+                         "multi-use broadcast operands through real backward passes",
+            "level_text": "Unbounded: flatten_slice adds each adjoint value at its right-aligned projected index, for all ranks and sizes (A1). "
+                          "Bounded: flatten_to dims/values per alignment class; gradients of operands broadcast in 1-3 operations of one graph, "
+                          "1-2 passes, have the operand's dims and the summed values (first and later contributions).",
+            "level_note": _OP_NOTE,
+            "explanation": "flatten_slice contract proved for all shapes; call sites (flatten_to, backward's two arms) bounded."},
+    "C06": {"level": "other", "verus": ["V2_unroll_blocks_op", "V1_matmul_slice", "V4a_slice_offset"],
+            "kani_groups": ["h_conv.rs"], "instances": c06_instances,
+            "technique": "Verus proofs of the im2col gather map, the matmul kernel and the batch slice offset + bounded Kani instances of conv "
+                         "against the direct sliding-window sum",
+            "level_text": "Unbounded: unroll_blocks' kernel writes out[((((r*C+c)*D+k)*FR+m)*FC+n)] = in[(k*R+m+sr*r)*Cols+n+sc*c] for every size, "
+                          "stride and filter (including strides that do not divide and overlapping windows); matmul_slice; slice_offset. "
+                          "Bounded: the whole conv pipeline (unroll, reshape, matmul, expand_conv) per concrete class incl. batch absent/1/2.",
+            "level_note": _OP_NOTE,
+            "explanation": "Kernels proved for all sizes, pipeline bounded."},
+    "C07": {"level": "model_checking", "kani_groups": ["h_ops.rs"], "instances": c07_instances,
+            "technique": "bounded Kani contract instances of sum(k), sum_all, reshape, the point-wise maps and softmax per concrete shape / parameter",
+            "level_text": "Bounded: every function is checked against the statement for concrete shapes (thorough: rank <= 4, every k) with symbolic "
+                          "values; point-wise maps bitwise against the same scalar expression; sums on the exact domain.",
+            "level_note": _OP_NOTE,
+            "explanation": "Bounded contract instances per function and shape class.",
+            "not_decided": ["softmax rows non-negative and summing to one is decided only on a domain where the model exponentials make all quotients "
+                            "exact (rows of two); for real exp and float rounding the clause is not decidable with these tools"]},
+})
+for _k in ("C02", "C03", "C06", "C07"):
     NOT_APPLICABLE.pop(_k, None)
